@@ -6,12 +6,22 @@ use rs1090::decode::cpr::airborne_position;
 use serde_json::json;
 
 pub fn airborne_msg(yz: u32, xz: u32, odd: bool) -> AirbornePosition {
+    airborne_msg_checked(yz, xz, odd).expect("harness: airborne ME must parse")
+}
+
+/// the report built from the standard's layout, parsed by the real code: a refusal (or a panic) of the parser on a
+/// well-formed report is an observation about the code under test, not a harness error
+pub fn airborne_msg_checked(yz: u32, xz: u32, odd: bool) -> Result<AirbornePosition, String> {
     // everything around the CPR fields takes all its values as the counts run: type code 9-18 and 20-22, surveillance
     // status, NIC supplement / antenna flag, altitude, time bit. The position is a function of the CPR fields alone.
     let h = ((yz as u64) << 17 | xz as u64).wrapping_mul(0x9E37_79B9_7F4A_7C15) >> 32;
     let tcs = [9u8, 10, 11, 12, 13, 14, 15, 16, 17, 18, 20, 21, 22];
     let me = frames::me_airborne(tcs[(h % 13) as usize], ((h >> 4) % 4) as u8, ((h >> 6) % 2) as u8, frames::ac12_from_n(100 + ((h >> 8) % 1600) as u16), ((h >> 20) % 2) as u8, odd as u8, yz, xz);
-    AirbornePosition::try_from(&me[..]).expect("harness: airborne ME must parse")
+    match guarded(|| AirbornePosition::try_from(&me[..])) {
+        Ok(Ok(m)) => Ok(m),
+        Ok(Err(e)) => Err(format!("type code {}: {e}", tcs[(h % 13) as usize])),
+        Err((loc, msg)) => Err(format!("type code {}: panic at {loc}: {msg}", tcs[(h % 13) as usize])),
+    }
 }
 
 struct Ctx<'a> {
@@ -30,8 +40,21 @@ struct Ctx<'a> {
 fn one(c: &mut Ctx, lat: f64, lon: f64, class: &'static str) {
     let e = cpr::encode(lat, lon, 0, false);
     let o = cpr::encode(lat, lon, 1, false);
-    let me = airborne_msg(e.yz, e.xz, false);
-    let mo = airborne_msg(o.yz, o.xz, true);
+    let (me, mo) = match (airborne_msg_checked(e.yz, e.xz, false), airborne_msg_checked(o.yz, o.xz, true)) {
+        (Ok(a), Ok(b)) => (a, b),
+        (a, b) => {
+            c.r.evaluations += 1;
+            let why = a.err().or(b.err()).unwrap_or_default();
+            c.r.violation("C04:well-formed-report-not-parsed", format!("({lat},{lon}): an airborne position report built from the standard's layout is refused: {why}"), json!({"lat": lat, "lon": lon, "order": "even,odd"}));
+            return;
+        }
+    };
+    // the parsed reports must carry the parity and the counts that were encoded (whatever the other fields hold)
+    if format!("{:?}", me.parity) == format!("{:?}", mo.parity) || me.lat_cpr != e.yz || me.lon_cpr != e.xz || mo.lat_cpr != o.yz || mo.lon_cpr != o.xz {
+        c.r.evaluations += 1;
+        c.r.violation("C04:report-fields-misread", format!("({lat},{lon}): parsed reports carry parity {:?}/{:?}, counts ({}, {}) / ({}, {}); encoded even ({}, {}), odd ({}, {})", me.parity, mo.parity, me.lat_cpr, me.lon_cpr, mo.lat_cpr, mo.lon_cpr, e.yz, e.xz, o.yz, o.xz), json!({"lat": lat, "lon": lon, "order": "even,odd"}));
+        return;
+    }
     // every transition latitude but one is irrational, so a recovered (lattice) latitude never equals it and the
     // guard band only absorbs table-vs-formula rounding. The exception is 87 deg exactly, which the even lattice
     // does hit (6 deg * 14.5) and for which the standard states NL = 2: that point is judged.
